@@ -1,7 +1,7 @@
 """Contract table: diagn::Report.  Same clause text is used (a) where Report's real methods are
 verified (unit U-report, `msgs()`/`parents()` are defined over the real fields) and (b) as
 external_body stubs in every other unit (where `msgs()`/`parents()` are uninterpreted)."""
-from vfw.spec import Fn, C, Rewrite
+from vfw.spec import Fn, C, Rewrite, Loop, Insert
 
 F = "src/diagn/report.rs"
 
@@ -35,9 +35,14 @@ def report_fns(mode="stub", slot="diagn"):
     fns.append(Fn(F, "pop_parent", impl="Report", slot=slot, mode=mode, props=["C03"],
                   requires=[C("has_parent", "old(self).parents() > 0", ["C03"])],
                   ensures=_same + [C("parent_popped", "final(self).parents() == old(self).parents() - 1", ["C03"])]))
-    fns.append(Fn(F, "message", impl="Report", slot=slot, mode=mode, ensures=_push_msg, props=["C03"]))
+    fns.append(Fn(F, "message", impl="Report", slot=slot, mode=mode, props=["C03"], ensures=_push_msg + [
+        C("toplevel_kind_counts", "old(self).parents() == 0 ==> final(self).errors() == old(self).errors() + (if msg_is_error(msg) { 1nat } else { 0nat })", ["C03"])]))
     fns.append(Fn(F, "stop_at_errors", impl="Report", slot=slot, mode=mode, ret="res", props=["C03"],
-                  ensures=[C("ok_iff_no_error", "res is Ok <==> self.errors() == 0", ["C03"])]))
+                  ensures=[C("ok_iff_no_error", "res is Ok <==> self.errors() == 0", ["C03"])],
+                  rewrites=([Rewrite(r"for msg in &self\.messages\b", "for msg in it: &self.messages", regex=True, count=None, rule="R5", why="ghost iterator named")] if mode == "verify" else []),
+                  loops=({"for msg in": Loop(invariant=[C("no_error_so_far", "forall|i: int| 0 <= i < it.index@ ==> !((#[trigger] self.messages@[i]).kind is Error)")],
+                                              body_start="\t\t\tproof { assert(*msg == self.messages@[it.index@ as int]); lemma_count_zero(self.messages@); }")} if mode == "verify" else {}),
+                  inserts=([Insert("\t\tOk(())", "\t\tproof { lemma_count_zero(self.messages@); }\n", where="before")] if mode == "verify" else [])))
     fns.append(Fn(F, "has_errors", impl="Report", slot=slot, mode=mode, ret="res", props=["C03"],
                   ensures=[C("has_errors_iff_messages", "res == (self.msgs() != 0)", ["C03"])]))
     return fns
